@@ -147,7 +147,7 @@ class SortUniverse:
             r = self.seqdt(self.z3sort(s.args[0]))
         elif k == "opt":
             inner = self.z3sort(s.args[0])
-            sn = _sname(s.args[0])
+            sn = _sname(s.args[0]) + self._sfx()
             dt = z3.Datatype(f"Opt_{sn}")
             dt.declare(f"none_{sn}")
             dt.declare(f"some_{sn}", (f"val_{sn}", inner))
@@ -155,15 +155,16 @@ class SortUniverse:
             r.none, r.some, r.val = r.constructor(0)(), r.constructor(1), r.accessor(1, 0)
             r.is_none, r.is_some = r.recognizer(0), r.recognizer(1)
         elif k == "tuple":
-            tn = "Tup_" + "_".join(_sname(a) for a in s.args)
+            tn = "Tup_" + "_".join(_sname(a) for a in s.args) + self._sfx()
             dt = z3.Datatype(tn)
             dt.declare(f"mk_{tn}", *[(f"{tn}_f{i}", self.z3sort(a)) for i, a in enumerate(s.args)])
             r = dt.create()
             r.mk = r.constructor(0)
         elif k == "rec":
             decl = self.records[s.name]
-            dt = z3.Datatype(f"Rec_{s.name}")
-            dt.declare(f"mk_{s.name}", *[(f"{s.name}__{f}", self.z3sort(fs)) for f, fs in decl.fields])
+            rn = s.name + self._sfx()
+            dt = z3.Datatype(f"Rec_{rn}")
+            dt.declare(f"mk_{rn}", *[(f"{rn}__{f}", self.z3sort(fs)) for f, fs in decl.fields])
             r = dt.create()
             r.mk = r.constructor(0)
         elif k == "dict":
@@ -176,6 +177,11 @@ class SortUniverse:
             raise Unsupported(f"no z3 sort for {s}")
         self._z3[s] = r
         return r
+
+    def _sfx(self):
+        # datatypes of the 64-bit-vector universe get their own names: z3 keeps one global table of datatype names, and
+        # a Rec_Style over Int next to a Rec_Style over BitVec in one process trips an internal assertion
+        return "_bv" if self.bv else ""
 
     def _unit(self):
         if "unit" not in self._opaque:
